@@ -55,4 +55,7 @@ def run(repo, tier) -> Result:
     check_movement_contracts("C15", res, repo)
     check_append_order("C15", res, repo, parts=("manager",))
     check_fill("C15", res, repo)
+    from ..framework_rules import check_settings_kept
+
+    check_settings_kept("C15", res, repo)
     return res
